@@ -154,7 +154,11 @@ static std::string reg(int g, const std::vector<Node> &ns, bool lib) {
   std::string out = "ok";
   for (const Node &n : ns) {
     out += " n" + std::to_string(nodes.size());
-    nodes.push_back(NodeRef{g, n});
+    // kept through copy construction + move assignment into an existing handle (as a container of Nodes does)
+    Node tmp(n);
+    NodeRef r{g, Node()};
+    r.n = std::move(tmp);
+    nodes.push_back(std::move(r));
   }
   silent[g].push_back(lib);
   return out;
